@@ -1193,7 +1193,7 @@ result_t ChainedMessage::prepareMasterPart(size_t index, char separator, istring
   }
   if (index == 0) {
     for (size_t i = 0; i < cnt; i++) {
-      m_lastMasterUpdateTimes[index] = m_lastSlaveUpdateTimes[index] = 0;
+      m_lastMasterUpdateTimes[i] = m_lastSlaveUpdateTimes[i] = 0;
     }
   }
   return result;
